@@ -49,6 +49,12 @@ pub(crate) mod verif_rig_state {
         }
     }
 
+    impl ProgressState {
+        pub(crate) fn set_status_done(&mut self) {
+            self.status = Status::DoneVisible;
+        }
+    }
+
     impl BarState {
         pub(crate) fn state_pos_arc(&self) -> Arc<AtomicPosition> {
             self.state.pos.clone()
